@@ -95,7 +95,11 @@ func (e *env) roundTrip(caseID string, idx int) {
 	case idx < len(boundaryLengths):
 		hist = buildExact(rng, boundaryLengths[idx])
 	case idx%3 == 0:
-		hist = buildExact(rng, 1+rng.Intn(1600))
+		L := 1 + rng.Intn(1600)
+		if rng.Intn(3) == 0 {
+			L = boundaryLengths[rng.Intn(len(boundaryLengths))]
+		}
+		hist = buildExact(rng, L)
 	default:
 		kind = "random"
 		hist = gen.Random(rng, rig.Genesis(), gen.Opts{
